@@ -758,3 +758,14 @@ Proof.
   destruct (rget R_vds _) as [r|]; [|discriminate H1]. exists r. split; [reflexivity|].
   cbn [option_map] in H1. congruence.
 Qed.
+
+(* ---------- instances of the hypotheses (non-vacuity) ---------- *)
+Definition footer_region : region := region_of_spec 0 (mkRspec true VMDK_FOOTER_LEN VMDK_FOOTER_LEN None).
+Lemma ex_footer_len : r_len footer_region <> 0.
+Proof. vm_compute. discriminate. Qed.
+Lemma ex_fresh_region : flen (r_data (region_of_spec 0 (mkRspec false 0 512 None))) <= r_len (region_of_spec 0 (mkRspec false 0 512 None)).
+Proof. vm_compute. discriminate. Qed.
+Lemma ex_static : static_fmt F_qcow2 = true /\ reachable F_qcow2 (fst (eat (init F_qcow2) [81; 70; 73; 251])).
+Proof. split; [reflexivity|]. constructor. constructor. Qed.
+Lemma ex_source_hyps : (0 <= 512)%Z /\ (zlen [] <= 512)%Z /\ (0 < 1536)%Z.
+Proof. vm_compute. repeat split; discriminate. Qed.
